@@ -155,11 +155,37 @@ Proof.
     assert (F2R (Float radix2 (cond_Zopp true (Z.pos m)) e) < 0)%R by (apply F2R_lt_0; cbn; lia). lra.
 Qed.
 
-Lemma f_trunc_Z_floor x : fin x -> (0 <= FR x)%R -> f_trunc_Z x = Zfloor (FR x).
+(* int(x) (amd64, F64.f_trunc_Z) is the integer part for a finite 0 <= x < 2^63; at and beyond 2^63, and
+   for NaN and the infinities, it is math.MinInt64 (f_trunc_Z_indefinite below) *)
+Lemma f_trunc_Z_floor x : fin x -> (0 <= FR x)%R -> (FR x < bpow radix2 63)%R -> f_trunc_Z x = Zfloor (FR x).
 Proof.
-  intros F H. unfold f_trunc_Z. destruct (fin_nonneg_sf x F H) as [[s [-> ->]]|[m [e [-> ->]]]].
+  intros F H U. unfold f_trunc_Z. destruct (fin_nonneg_sf x F H) as [[s [-> ->]]|[m [e [-> E]]]].
   - symmetry. apply (Zfloor_IZR 0).
-  - apply sf_pos_val.
+  - rewrite E in H, U |- *. rewrite sf_pos_val. set (r := Zfloor _).
+    assert (R0 : 0 <= r) by (apply Zfloor_lub; exact H).
+    assert (R1 : r < 2 ^ 63).
+    { apply lt_IZR. apply Rle_lt_trans with (1 := Zfloor_lb _). rewrite <- bpow63. exact U. }
+    replace (Z.leb int64_indefinite r) with true by (symmetry; apply Z.leb_le; unfold int64_indefinite; lia).
+    replace (Z.ltb r 9223372036854775808) with true by (symmetry; apply Z.ltb_lt; lia).
+    reflexivity.
+Qed.
+
+Lemma bpow52_lt_63 : (bpow radix2 52 < bpow radix2 63)%R.
+Proof. apply bpow_lt. lia. Qed.
+
+(* the out-of-range conversions: NaN, +Inf, -Inf *)
+Lemma f_trunc_Z_not_fin x : Prim2SF x = S754_nan \/ (exists s, Prim2SF x = S754_infinity s) ->
+  f_trunc_Z x = int64_indefinite.
+Proof. intros [H|[s H]]; unfold f_trunc_Z; rewrite H; reflexivity. Qed.
+
+(* every value of the conversion is an int64 *)
+Lemma f_trunc_Z_int64 x : - 2 ^ 63 <= f_trunc_Z x < 2 ^ 63.
+Proof.
+  unfold f_trunc_Z. destruct (Prim2SF x) as [s|s| |s m e]; try (unfold int64_indefinite; lia).
+  cbv zeta. set (r := if s then _ else _).
+  destruct (Z.leb int64_indefinite r) eqn:A; cbn [andb]; [|unfold int64_indefinite; lia].
+  destruct (Z.ltb r 9223372036854775808) eqn:B; [|unfold int64_indefinite; lia].
+  apply Z.leb_le in A. apply Z.ltb_lt in B. unfold int64_indefinite in A. lia.
 Qed.
 
 Lemma FR_two52 : FR two52 = bpow radix2 52.
@@ -174,7 +200,7 @@ Proof.
   { rewrite leb_R by auto using fin_two52, fin_abs. rewrite FR_two52, FR_abs, Rabs_pos_eq by exact H0.
     apply Rle_bool_false. exact H1. }
   rewrite E. destruct (fin_nonneg_sf p F H0) as [[s [Es Ez]]|[m [e [Es Ev]]]]; rewrite Es.
-  - now apply f_trunc_Z_floor.
+  - apply f_trunc_Z_floor; [exact F|exact H0|]. apply Rlt_trans with (1 := H1). exact bpow52_lt_63.
   - assert (Ef : f_floor_Z p = Zfloor (FR p)).
     { unfold f_floor_Z. rewrite Es, Ev. apply sf_pos_val. }
     rewrite Ef. destruct (Z.eqb (Zfloor (FR p)) 0) eqn:Z0.
@@ -186,8 +212,8 @@ Proof.
         - apply lt_IZR. apply Rle_lt_trans with (1 := Zfloor_lb (FR p)). apply Rlt_trans with (1 := H1).
           change (2 ^ 53) with (Zpower radix2 53). rewrite IZR_Zpower by lia. apply bpow_lt. lia. }
       destruct (f_of_Z_exact _ Hz) as [F2 E2].
-      rewrite f_trunc_Z_floor by (try exact F2; rewrite E2; apply IZR_le; lia).
-      rewrite E2. apply Zfloor_IZR.
+      rewrite f_trunc_Z_floor; [rewrite E2; apply Zfloor_IZR|exact F2|rewrite E2; apply IZR_le; lia|].
+      rewrite E2, bpow63. apply IZR_lt. lia.
 Qed.
 
 (* 2. the interspecies dad index *)
